@@ -17,7 +17,7 @@ import (
 func init() {
 	ev.Register(&ev.Spec{
 		ID: "C07", Level: "exploration",
-		Rule:    "pairwise rendezvous matrix: every ordered pair (A, B) of 25 backend-reaching operations (among them a two-component walk parked in its second step and a walk parked in the GetAttr on the file it walked to) x path relation (same fid, two fids on one path, parent, child, sibling, unrelated, other connection): A is parked at a gate inside its backend call, B is issued, and the harness waits until B has entered the backend, was answered, or the whole process is observed parked (B blocked inside p9); two thirds of the cells run with a history behind A's fid (its entry was renamed into another directory after the fid was bound; B's fid bound before or after the move; or an earlier Tunlinkat of A's entry was refused by the backend; or B's fid is clunked and bound anew while A is parked; or A's entry was renamed onto itself through two fids of its directory before B's fid was bound); the backend's online overlap monitor (interval intersection on a logical clock, conflict relation taken from the File contract) and the per-handle Open counter are the oracle; plus j <= 4 concurrent Tlopen on one fid. Non-trivial: both calls reached the backend or B was observed blocked; distinct by (opA, opB, relation, outcome).",
+		Rule:    "pairwise rendezvous matrix: every ordered pair (A, B) of 25 backend-reaching operations (among them a two-component walk parked in its second step and a walk parked in the GetAttr on the file it walked to) x path relation (same fid, two fids on one path, parent, child, sibling, unrelated, other connection): A is parked at a gate inside its backend call, B is issued, and the harness waits until B has entered the backend, was answered, or the whole process is observed parked (B blocked inside p9); two thirds of the cells run with a history behind A's fid (its entry was renamed into another directory after the fid was bound; B's fid bound before or after the move; or an earlier Tunlinkat of A's entry was refused by the backend; or B's fid is clunked and bound anew while A is parked; or A's entry was renamed onto itself through two fids of its directory before B's fid was bound); the backend's online overlap monitor (interval intersection on a logical clock, conflict relation taken from the File contract) and the per-handle Open counter are the oracle; plus j <= 4 concurrent Tlopen on one fid; plus a Tlcreate queued behind an unlinkat / Tremove / rename-away of its name, then created fid vs walked fid on the new file. Non-trivial: both calls reached the backend or B was observed blocked; distinct by (opA, opB, relation, outcome).",
 		Assume:  []string{"memfs computes each call's receiver path from Renamed notifications", "hard links are kept out of the workload", "one scenario at a time per shard process so that 'process parked' is meaningful"},
 		Shards:  shards(8, 16),
 		Timeout: timeout(8*time.Minute, 45*time.Minute),
